@@ -9,7 +9,8 @@ from .coqrun import lit
 from .model import esc_bytes
 
 PROBE_TPL = os.path.join(build.GOTOOLS, "fixture", "probe.go.tpl")
-ENVV = {"GV_SET": "from-env", "GV_INT": "42", "GV_BAD": "4x2", "GV_EMPTY": "", "GV_Z": "007", "GV_NEG0": "-0", "GV_PLUS": "+5", "GV_BIG": "9223372036854775808", "GV_MIN": "-9223372036854775808"}
+ENVV = {"GV_SET": "from-env", "GV_INT": "42", "GV_BAD": "4x2", "GV_EMPTY": "", "GV_Z": "007", "GV_NEG0": "-0", "GV_PLUS": "+5", "GV_BIG": "9223372036854775808", "GV_MIN": "-9223372036854775808",
+        "GV_PADL": " 8080", "GV_PADNL": "8080\n", "GV_PADT": "\t7\t", "GV_HEX": "0x10", "GV_UND": "1_000", "GV_EXP": "1e3"}
 
 
 def esc(x):
